@@ -92,6 +92,10 @@ type vfStore struct {
 	// to attach a deadline or a value) and works with the returned request only: its fields, its context. Listers
 	// then also refuse to list once the context they were created under is done.
 	ViaWithContext bool
+	// SharedReplies: StatVFS hands out one and the same *StatVFS value on every call (a handler that keeps its
+	// answer around). Only meaningful when requests are issued one at a time.
+	SharedReplies bool
+	sharedVFS     *StatVFS
 	// EagerEOF: a read that reaches the end of the file reports io.EOF together with its bytes, also when it
 	// filled the buffer (io.ReaderAt: "may return either err == EOF or err == nil" in that case)
 	EagerEOF bool
@@ -575,6 +579,14 @@ func (h vfHCmdAll) StatVFS(r *Request) (*StatVFS, error) {
 		if err := h.s.CmdErr(r.Method, r.Filepath); err != nil {
 			return nil, err
 		}
+	}
+	if h.s.SharedReplies {
+		h.s.mu.Lock()
+		defer h.s.mu.Unlock()
+		if h.s.sharedVFS == nil {
+			h.s.sharedVFS = &StatVFS{Bsize: 4096, Frsize: 4096, Blocks: 1000, Bfree: 500, Bavail: 400, Files: 99, Ffree: 88, Favail: 77, Fsid: 5, Flag: 1, Namemax: 255}
+		}
+		return h.s.sharedVFS, nil
 	}
 	return &StatVFS{Bsize: 4096, Frsize: 4096, Blocks: 1000, Bfree: 500, Bavail: 400, Files: 99, Ffree: 88, Favail: 77, Fsid: 5, Flag: 1, Namemax: 255}, nil
 }
